@@ -1003,7 +1003,10 @@ fn main() {
                 lineno = 0;
                 pool.clear();
             }
-            "end" => {}
+            "end" => {
+                // one flush per case: when the process is killed for a hang, everything before the hanging case is out
+                out.flush().unwrap();
+            }
             "r" => {
                 lineno += 1;
                 let res = catch_unwind(AssertUnwindSafe(|| exec(&pool, &toks[1..])));
